@@ -424,7 +424,7 @@ int femmcli::LuaMagneticsCommands::luaAddBoundaryProperty(lua_State *L)
     if (n>9) m->BdryFormat = (int) lua_todouble(L,10);
 
     doc->lineproplist.push_back(std::move(m));
-    doc->updateLineMap();
+    doc->updateIndicesFromLabels();
     if (luaInstance->getDebugGeometry())
         luaDebugWriteFEMFile(L);
 
@@ -467,7 +467,7 @@ int femmcli::LuaMagneticsCommands::luaAddCircuitProperty(lua_State *L)
     if (n>2) m->CircType=(int) lua_todouble(L,3);
 
     femmState->femmDocument()->circproplist.push_back(std::move(m));
-    femmState->femmDocument()->updateCircuitMap();
+    femmState->femmDocument()->updateIndicesFromLabels();
 
     if (luaInstance->getDebugGeometry())
         luaDebugWriteFEMFile(L);
@@ -588,7 +588,7 @@ int femmcli::LuaMagneticsCommands::luaAddMatProperty(lua_State *L)
     }
 
     femmState->femmDocument()->blockproplist.push_back(std::move(m));
-    femmState->femmDocument()->updateBlockMap();
+    femmState->femmDocument()->updateIndicesFromLabels();
     if (luaInstance->getDebugGeometry())
         luaDebugWriteFEMFile(L);
 
@@ -632,7 +632,7 @@ int femmcli::LuaMagneticsCommands::luaAddPointProperty(lua_State *L)
     if (n>2) m->J = lua_tonumber(L,3);
 
     doc->nodeproplist.push_back(std::move(m));
-    doc->updateNodeMap();
+    doc->updateIndicesFromLabels();
     if (luaInstance->getDebugGeometry())
         luaDebugWriteFEMFile(L);
 
@@ -1707,7 +1707,7 @@ int femmcli::LuaMagneticsCommands::luaModifyBoundaryProperty(lua_State *L)
     {
     case 0:
         m->BdryName = lua_tostring(L,3);
-        doc->updateLineMap();
+        doc->updateIndicesFromLabels();
         break;
     case 1:
         m->A0 = lua_todouble(L,3);
@@ -1805,6 +1805,7 @@ int femmcli::LuaMagneticsCommands::luaModifyCircuitProperty(lua_State *L)
         if (!lua_isnil(L,3))
             newName = lua_tostring(L,3);
         prop->CircName = newName;
+        doc->updateIndicesFromLabels();
         break;
     }
     case 1:
@@ -1875,7 +1876,7 @@ int femmcli::LuaMagneticsCommands::luaModifyMaterialProperty(lua_State *L)
     {
     case 0:
         m->BlockName = lua_tostring(L,3);
-        doc->updateBlockMap();
+        doc->updateIndicesFromLabels();
         break;
     case 1:
         m->mu_x = lua_todouble(L,3);
@@ -1973,6 +1974,7 @@ int femmcli::LuaMagneticsCommands::luaModifyPointProperty(lua_State *L)
     {
     case 0:
         p->PointName = lua_tostring(L,3);
+        doc->updateIndicesFromLabels();
         break;
     case 1:
         p->A = lua_tonumber(L,3);
